@@ -85,3 +85,41 @@ Proof.
     destruct (_ <? _); discriminate.
   - cbn [snd]. destruct (_ <? _); discriminate.
 Qed.
+
+(* ------------------------------------------------------------------ the configured reference id *)
+From CB Require Import Cli.
+
+Lemma refid_of_four a b c d : is_ascii a = true -> is_ascii b = true -> is_ascii c = true -> is_ascii d = true ->
+  refid_of [a; b; c; d] = Some (a * 16777216 + b * 65536 + c * 256 + d).
+Proof. intros Ha Hb Hc Hd. unfold refid_of. cbn [length Nat.leb forallb]. rewrite Ha, Hb, Hc, Hd. cbn [andb be_value]. f_equal. lia. Qed.
+
+Lemma refid_of_range bs v : refid_of bs = Some v -> 0 <= v < 4294967296.
+Proof.
+  unfold refid_of. destruct (Nat.leb (length bs) 4) eqn:L; [|discriminate]. cbn [andb].
+  destruct (forallb is_ascii bs) eqn:A; [|discriminate]. intros H; inversion H; subst v; clear H.
+  apply Nat.leb_le in L. rewrite forallb_forall in A.
+  assert (G : forall l acc, (forall x, In x l -> is_ascii x = true) -> 0 <= acc ->
+              0 <= be_value l acc < (acc + 1) * 256 ^ Z.of_nat (length l)).
+  { induction l as [|x l IH]; intros acc Hx Ha; cbn [be_value length].
+    - cbn. lia.
+    - assert (Hx0 : is_ascii x = true) by (apply Hx; left; reflexivity). unfold is_ascii in Hx0.
+      apply andb_true_iff in Hx0 as [X0 X1]. apply Z.leb_le in X0. apply Z.ltb_lt in X1.
+      specialize (IH (acc * 256 + x) (fun y Hy => Hx y (or_intror Hy)) ltac:(lia)).
+      rewrite Nat2Z.inj_succ, Z.pow_succ_r by lia.
+      assert (0 < 256 ^ Z.of_nat (length l)) by (apply Z.pow_pos_nonneg; lia). nia. }
+  specialize (G bs 0 A ltac:(lia)).
+  assert (256 ^ Z.of_nat (length bs) <= 256 ^ 4) by (apply Z.pow_le_mono_r; lia). lia.
+Qed.
+
+(* two four-character ASCII names give the same id only if they are the same name: the PHC term
+   cannot be attached to another four-character reference by the conversion *)
+Lemma refid_of_four_injective a b c d a' b' c' d' :
+  is_ascii a = true -> is_ascii b = true -> is_ascii c = true -> is_ascii d = true ->
+  is_ascii a' = true -> is_ascii b' = true -> is_ascii c' = true -> is_ascii d' = true ->
+  refid_of [a; b; c; d] = refid_of [a'; b'; c'; d'] -> [a; b; c; d] = [a'; b'; c'; d'].
+Proof.
+  intros Ha Hb Hc Hd Ha' Hb' Hc' Hd' H. rewrite !refid_of_four in H by assumption. inversion H as [E]; clear H.
+  unfold is_ascii in *. repeat match goal with H : (_ && _)%bool = true |- _ => apply andb_true_iff in H as [? ?] end.
+  repeat match goal with H : (_ <=? _) = true |- _ => apply Z.leb_le in H | H : (_ <? _) = true |- _ => apply Z.ltb_lt in H end.
+  assert (d = d') by lia. subst d'. assert (c = c') by lia. subst c'. assert (b = b') by lia. subst b'. assert (a = a') by lia. subst. reflexivity.
+Qed.
